@@ -82,6 +82,7 @@ def build_slave_od():
     od.add_object(world.var("A", 0x2000, 0, odm.UNSIGNED16, "rw", default=0))
     od.add_object(world.var("B", 0x2001, 0, odm.INTEGER32, "rw", default=0))
     od.add_object(world.var("C", 0x2002, 0, odm.UNSIGNED8, "rw", default=0))
+    od.add_object(world.var("D", 0x2003, 0, odm.BOOLEAN, "rw", default=0))
     return od
 
 
@@ -124,6 +125,7 @@ class W:
         m.cob_id = 0x180 + self.nid
         m.enabled = True
         m.add_variable(0x2000)
+        m.add_variable(0x2003, 0, 1)    # a 1-bit field: everything behind it is off the byte boundary
         m.add_variable(0x2001)
         m.add_variable(0x2002)
         self.map = m
@@ -239,8 +241,10 @@ def _do(ctx, w, prod, callname, flavour):
             _, exc = call(mp.stop)
             m.running = False
         elif callname in ("set-var", "set-var2"):
-            which = ctx.choice(3, "var")
+            which = ctx.choice(len(mp.map), "var")
             val = ctx.choice(250, "val") + 1
+            if mp.map[which].od.data_type == odm.BOOLEAN:
+                val = not mp.map[which].raw
 
             def do():
                 mp[which].raw = val
